@@ -3,6 +3,7 @@
 // report `barrier` and `counted`, and must not report `guarded`, otherwise the check is ANALYSIS-BROKEN.
 #include <cctype>
 #include <cstddef>
+#include <cstdio>
 #include <cstring>
 #include <stdexcept>
 #include <string>
@@ -215,5 +216,53 @@ namespace rkverif_c16 {
     char *end = s;
     eat(s, '\'');
     return std::string(begin, end);
+  }
+
+  // R-C16-15: length returned by snprintf used to read the buffer
+  std::string fmt_unclamped(const char *name)       // must be reported: len is the untruncated length
+  {
+    char msg[64];
+    const int len = snprintf(msg, sizeof(msg), "bad node '%s'", name);
+    return std::string(msg, len > 0 ? len : 0);
+  }
+
+  std::string fmt_clamped(const char *name)         // must not be reported: len is compared with the buffer size
+  {
+    char msg[64];
+    int len = snprintf(msg, sizeof(msg), "bad node '%s'", name);
+    if (len >= (int)sizeof(msg))
+      len = sizeof(msg) - 1;
+    return std::string(msg, len > 0 ? len : 0);
+  }
+
+  std::string fmt_cstr(const char *name)            // must not be reported: the buffer is read as a C string
+  {
+    char msg[64];
+    snprintf(msg, sizeof(msg), "bad node '%s'", name);
+    return std::string(msg);
+  }
+
+  // R-C16-16: std::sto* on document text
+  float conv_bare(const std::string &v)             // must be reported
+  {
+    return std::stof(v);
+  }
+
+  float conv_converted(const std::string &v)        // must not be reported: converted to std::runtime_error
+  {
+    try {
+      return std::stof(v);
+    } catch (const std::logic_error &) {
+      throw std::runtime_error("not a number: " + v);
+    }
+  }
+
+  int conv_rethrown(const std::string &v)           // must be reported: the handler lets the same exception out again
+  {
+    try {
+      return std::stoi(v);
+    } catch (...) {
+      throw;
+    }
   }
 }  // namespace rkverif_c16
